@@ -380,7 +380,7 @@ static void run_c08(long cases) {
         int workers = r.chance(1, 2) ? 1 : 3;
         // stall rounds: one client keeps the single worker busy for 1.5 s, longer than the 1 s idle time-out; the others only do things
         // whose outcome does not depend on being served in time (a worker that is away that long answers late comers 408 and closes)
-        bool stallRound = http && !longTimeouts && r.chance(1, 4);
+        bool stallRound = http && !longTimeouts && r.chance(1, (int)g_opts.num("stall-one-in", 3));
         if (stallRound) workers = 1;
         { std::lock_guard<std::mutex> g(g_m); g_life.clear(); SpyTransport::all().clear(); }
         std::unique_ptr<Tcp::Listener> listener; std::unique_ptr<Http::Endpoint> ep; int port;
@@ -404,12 +404,14 @@ static void run_c08(long cases) {
         // descriptors left over from the previous round's endpoint (shut down with a connection still open) are not this round's
         long accepts0, closes0; { lv::Interpose& I = lv::ip(); std::lock_guard<std::mutex> g(I.m); I.owned.clear(); accepts0 = I.accepts; closes0 = I.closesOwned; }
         int nclients = r.range(1, 24);
+        if (stallRound) nclients = std::max(nclients, 5);   // (the stalling client, two that stay silent past the time-out and then leave, and others)
+        set_case(idx, Json().num("i", idx).str("phase", "c08").str("server", http ? "http-endpoint" : "tcp-listener").num("workers", workers).str("behaviours", stallRound ? "(stall round in progress)" : "(round in progress)").done());
         std::vector<int> behaviours;
         std::vector<std::thread> th;
         if (stallRound) nclients = std::max(nclients, 3);
         for (int k = 0; k < nclients; k++) {
             int b = r.range(0, 16);
-            if (stallRound) { static const int QUIET[] = {0, 1, 4, 16, 16, 16, 12, 11}; b = k == 0 ? 17 : r.pick(QUIET); }
+            if (stallRound) { static const int QUIET[] = {0, 1, 4, 16, 16, 16, 12, 11}; b = k == 0 ? 17 : k <= 2 ? 16 : r.pick(QUIET); }
             if (!stallRound && k == 0 && r.chance(1, 2)) b = 10;
             if ((b == 15 || b == 16) && (!http || longTimeouts)) b = 5;
             if (g_opts.num("behaviour", -1) >= 0) b = (int)g_opts.num("behaviour", -1);
